@@ -30,3 +30,57 @@ PROPS["C11"] = dict(
     rule="cases: (a) every digit string / value list of the TLC universe (all strings up to FullLen over the 64 digits, up to RedLen over 9 boundary digits, continuation runs of 11..14 digits, all magnitudes up to SmallBits bits, 2^k, 2^k-1, 2^(k-1)+1 for k<=62, both signs), (b) seeded random values uniform in bit length 0..62, u32 differences, random/canonical/damaged texts, foreign bytes; distinct = distinct (op,args); non-trivial = decode of >= 2 symbols or encode of a non-zero value",
     assumptions=COMMON_ASSUMPTIONS + ["the 2^33 exhaustive sweep of the quantifier text is not reproduced (see DESIGN.md C11)"],
 )
+
+def _doc_ntoks(e):
+    try:
+        return len(e["out"].get("toks", []))
+    except Exception:
+        return 0
+
+def _corrupt_decode(e):
+    """binding self-test for decode events: change one token field / one source / the kind"""
+    o = e["out"]
+    if o.get("toks"):
+        o["toks"][len(o["toks"]) // 2][1] += 1
+        return True
+    if o.get("sources"):
+        o["sources"][0] = o["sources"][0] + [120]
+        return True
+    if o.get("kind") == "index" and o["sections"]:
+        o["sections"][0]["off"][1] += 1
+        return True
+    return False
+
+PROPS["C02"] = dict(
+    level="model_checking",
+    level_text="The decoder is specified twice in TLA+ (symbol-by-symbol machine with the six accumulators; declarative split-and-prefix-sum reading) and TLC checks they agree on every text of a bounded universe; the same universe and seeded random documents written by the harness's own envelope/VLQ writer are decoded by the real crate and every result is judged by TLC (Trace_C02: tokens, kind, sources joined with the root, names, contents, ids, sections)",
+    level_note="bounded: texts of <= 2 (quick) / 3 (thorough) segments from a 10/16-segment alphabet plus single faults; random documents up to ~50 segments; running sums beyond 2^30 are not evaluated by TLC (32-bit integers); serde_json behind the API is not modelled",
+    technique="TLA+ decoder state machine + declarative reading (Mappings.tla, Doc.tla), TLC bounded model checking, trace validation of real decode_slice results",
+    mc=[
+        dict(module="MC_Mappings", cfg="MC_Mappings_quick.cfg", tiers=("quick",), workers=8),
+        dict(module="MC_Mappings", cfg="MC_Mappings_thorough.cfg", tiers=("thorough",), workers=14, timeout=3400, heap="24g"),
+    ],
+    trace="Trace_C02",
+    drive=dict(quick=dict(n=1500, size=6), thorough=dict(n=30000, size=10)),
+    nontrivial=lambda e: e["out"].get("k") == "ok" and (_doc_ntoks(e) >= 2 or e["out"].get("kind") == "index"),
+    corrupt=_corrupt_decode,
+    rule="cases: every mappings text of the TLC universe (MC_Mappings: leads x segments x separators x trails x array sizes, plus every single fault) wrapped in a default envelope, and seeded random regular/Hermes/index documents (random key order, optional keys, junk header, null sources, numeric names, both debug id keys, source roots); distinct = distinct document; non-trivial = decodes successfully with >= 2 tokens or is an index map",
+    assumptions=COMMON_ASSUMPTIONS + ["documents are written by the harness's own writer (string escaping delegated to serde_json)"],
+)
+
+PROPS["C06"] = dict(
+    level="fault_enumeration",
+    level_text="Single faults (foreign byte incl. UTF-8 multi-byte, continuation bit, dropped/added field, 14-digit value, index delta of +-2^32) are enumerated by TLC at every position of every base text of the bounded universe; TLC checks on the model that the decoder machine rejects exactly the declaratively malformed texts, and every faulty text (plus seeded random texts with 1-2 faults) is decoded by the real crate and judged by TLC: malformed => Err, Ok => all indices resolve and tokens equal the independent reading",
+    level_note="error VARIANT is not compared (the statement only demands an error); texts whose running positions go negative are outside the rejection rules and only required not to panic",
+    technique="TLA+ decoder machine with explicit error transitions (Mappings.tla), TLC fault enumeration, trace validation of real decode_slice results",
+    mc=[
+        dict(module="MC_Mappings", cfg="MC_Mappings_quick.cfg", tiers=("quick",), workers=8),
+        dict(module="MC_Mappings", cfg="MC_Mappings_thorough.cfg", tiers=("thorough",), workers=14, timeout=3400, heap="24g"),
+    ],
+    trace="Trace_C02",
+    drive=dict(quick=dict(n=6000, size=4), thorough=dict(n=100000, size=8)),
+    nontrivial=lambda e: len(e["args"]["doc"]["mappings"][0]) >= 2,
+    corrupt=_corrupt_decode,
+    rule="cases: every text of MC_Mappings (base texts and every single fault at every position, 3 array sizes incl. empty arrays) and seeded random well-formed texts damaged by 1-2 faults (9 fault operators); distinct = distinct (text, sizes); non-trivial = text of >= 2 symbols",
+    assumptions=COMMON_ASSUMPTIONS,
+)
